@@ -393,4 +393,163 @@ def applyOp (p : Pay) : Op → Pay
 
 def applyOps (p : Pay) (ops : List Op) : Pay := ops.foldl applyOp p
 
+
+/-! ## Repairs
+
+Each flag of `Fixed` stands for one repair of `types/payload.go` (patch files under
+`.cache/payload-fix/`); with no flag set the functions below are, by definition, the functions above
+(the code as it was when the findings were recorded).  `fixedNow` says which repairs the tree under
+`/repo` has: flip a flag in the commit that applies the corresponding patch.
+
+* `emptyMetaTid`   (01) an empty `meta.trace_id` no longer erases the trace ID found so far
+* `configuredOrder` (02, applied after 01) the first *configured* trace-ID field wins on every path
+* `memoTime`       (03) a memoised timestamp is written back with `AppendTimeExt`, at any depth -/
+
+structure Fixed where
+  emptyMetaTid : Bool := false
+  configuredOrder : Bool := false
+  memoTime : Bool := false
+  deriving DecidableEq, Repr
+
+/-- the repairs present in the tree the check runs against -/
+def fixedNow : Fixed := { memoTime := true }
+
+/-- 01: `if p.MetaTraceID == "" { p.MetaTraceID = traceIDSoFar }` after a metadata assignment -/
+def keepTid (fx : Fixed) (prev : String) (m : Meta) : Meta :=
+  if fx.emptyMetaTid = true ∧ m.id.tid = "" then { m with id := { m.id with tid := prev } } else m
+
+/-- 02: trace-ID / parent-ID handling of the loop body; the candidate `c` = (value, configured
+index) replaces the direct assignment to `MetaTraceID`; `none` = not handled -/
+def idFallC (cfg : Cfg) (s : IdSt) (c : String × Nat) (k : String) (v : Val) : Option (IdSt × (String × Nat)) :=
+  match v with
+  | .str x =>
+    if k ∈ cfg.tn ∧ cfg.tn.idxOf k < c.2 then some (s, if x = "" then c else (x, cfg.tn.idxOf k))
+    else if k ∈ cfg.pn then some (if x = "" then s else { s with root := some false }, c)
+    else none
+  | _ => none
+
+def wstepN (fx : Fixed) (cfg : Cfg) (sk : List String) (st : (Pay × Nat) × (String × Nat))
+    (kv : String × Val) : Option ((Pay × Nat) × (String × Nat)) :=
+  match metaDecode kv.1 kv.2 with
+  | .err => none
+  | .done mv =>
+    some (({ st.1.1 with md := keepTid fx st.1.1.md.id.tid (st.1.1.md.put kv.1 mv) }, st.1.2), st.2)
+  | .skip =>
+    if fx.configuredOrder = true then
+      match idFallC cfg st.1.1.md.id st.2 kv.1 kv.2 with
+      | some ic => some (({ st.1.1 with md := { st.1.1.md with id := ic.1 } }, st.1.2), ic.2)
+      | none => some (wireKey sk st.1.1 st.1.2 kv.1 kv.2, st.2)
+    else
+      match idFall cfg st.1.1.md.id kv.1 kv.2 with
+      | some i => some (({ st.1.1 with md := { st.1.1.md with id := i } }, st.1.2), st.2)
+      | none => some (wireKey sk st.1.1 st.1.2 kv.1 kv.2, st.2)
+
+def wfoldN (fx : Fixed) (cfg : Cfg) (sk : List String) :
+    (Pay × Nat) × (String × Nat) → List (String × Val) → Option ((Pay × Nat) × (String × Nat))
+  | st, [] => some st
+  | st, kv :: t =>
+    match wstepN fx cfg sk st kv with
+    | none => none
+    | some st' => wfoldN fx cfg sk st' t
+
+/-- 02: `if p.MetaTraceID == "" { p.MetaTraceID = traceIDFromField }` after the loop -/
+def fillTid (fx : Fixed) (cand : String) (s : IdSt) : IdSt :=
+  if fx.configuredOrder = true ∧ s.tid = "" then { s with tid := cand } else s
+
+def extractWireN (fx : Fixed) (cfg : Cfg) (sk : List String) (p : Pay) (fs : List (String × Val)) : Option Pay :=
+  match wfoldN fx cfg sk (({ p with md := initRoot p.md, isEmpty := p.isEmpty || fs.isEmpty }, 0), ("", cfg.tn.length)) fs with
+  | none => none
+  | some ((p1, found), c) =>
+    let p2 : Pay := if found < sk.length then
+        { p1 with missing := p1.missing ++ sk.filter (fun f => !(AList.keys p1.memo).contains f) }
+      else p1
+    some { p2 with md := finishLog { p2.md with id := fillTid fx c.1 p2.md.id }, extracted := true }
+
+def extractWireF (fx : Fixed) (cfg : Cfg) (sk : List String) (p : Pay) (fs : List (String × Val)) : Option Pay :=
+  if fx.emptyMetaTid || fx.configuredOrder then extractWireN fx cfg sk p fs else extractWire cfg sk p fs
+
+def mapStepN (fx : Fixed) (cfg : Cfg) (f2i : Nat → Int) (m : Meta) (kv : String × Val) : Meta :=
+  match tableKind kv.1 with
+  | some .int => keepTid fx m.id.tid (match kv.2 with
+      | .f64 b => m.put kv.1 (.i (f2i b))
+      | v => typedSet m kv.1 .int v)
+  | some kd => keepTid fx m.id.tid (typedSet m kv.1 kd kv.2)
+  | none =>
+    if fx.configuredOrder = true then
+      (if kv.1 ∈ cfg.pn then
+        (match kv.2 with
+          | .str x => if x = "" then m else { m with id := { m.id with root := some false } }
+          | _ => m)
+      else m)
+    else if m.id.tid = "" ∧ kv.1 ∈ cfg.tn then
+      (match kv.2 with
+        | .str x => if x = "" then m else { m with id := { m.id with tid := x } }
+        | _ => m)
+    else if kv.1 ∈ cfg.pn then
+      (match kv.2 with
+        | .str x => if x = "" then m else { m with id := { m.id with root := some false } }
+        | _ => m)
+    else m
+
+/-- 02 on the map path: the configured names are looked up in `memoizedFields`, in configured order -/
+def firstConfiguredMemo : List String → AList String Val → String
+  | [], _ => ""
+  | k :: ks, memo =>
+    match AList.get memo k with
+    | some (.str x) => if x = "" then firstConfiguredMemo ks memo else x
+    | _ => firstConfiguredMemo ks memo
+
+def extractMapN (fx : Fixed) (cfg : Cfg) (f2i : Nat → Int) (p : Pay) (ord : List (String × Val)) : Option Pay :=
+  if p.extracted then some p else
+  let m1 := ord.foldl (mapStepN fx cfg f2i) (initRoot p.md)
+  let p1 : Pay := { p with md := { m1 with id := fillTid fx (firstConfiguredMemo cfg.tn p.memo) m1.id } }
+  match (if p.raw.isEmpty then some p1 else extractWireF fx cfg [] p1 p.raw) with
+  | none => none
+  | some p2 => some { p2 with md := finishLog p2.md, extracted := true }
+
+def extractMapF (fx : Fixed) (cfg : Cfg) (f2i : Nat → Int) (p : Pay) (ord : List (String × Val)) : Option Pay :=
+  if fx.emptyMetaTid || fx.configuredOrder then extractMapN fx cfg f2i p ord else extractMap cfg f2i p ord
+
+def ingestBatchF (fx : Fixed) (cfg : Cfg) (fs : List (String × Val)) : Option Pay :=
+  match extractWireF fx cfg cfg.sk {} fs with
+  | none => none
+  | some p => if p.isEmpty then none else some (addUA cfg { p with raw := fs })
+
+def ingestMetaF (fx : Fixed) (cfg : Cfg) (fs : List (String × Val)) : Option Pay :=
+  match extractWireF fx cfg [] {} fs with
+  | none => none
+  | some p => some (addUA cfg { p with raw := fs })
+
+def ingestMapF (fx : Fixed) (cfg : Cfg) (f2i : Nat → Int) (fs ord : List (String × Val)) : Option Pay :=
+  if (memoOfJSON fs).isEmpty then none
+  else extractMapF fx cfg f2i (addUA cfg { memo := memoOfJSON fs }) ord
+
+mutual
+/-- 03: `appendValue` — as `toWire`, but `time.Time` is written with `AppendTimeExt` -/
+def toWireT : Val → Val
+  | .uint n => if n ≤ 127 then .int n else .uint n
+  | .arr l => .arr (toWireTL l)
+  | .map l => .map (toWireTM l)
+  | v => v
+def toWireTL : List Val → List Val
+  | [] => []
+  | v :: t => toWireT v :: toWireTL t
+def toWireTM : List (String × Val) → List (String × Val)
+  | [] => []
+  | (k, v) :: t => (k, toWireT v) :: toWireTM t
+end
+
+def toWireF (fx : Fixed) (v : Val) : Val := if fx.memoTime then toWireT v else toWire v
+
+/-- `MarshalMsg` with the memoised values written by `w` -/
+def marshalW (w : Val → Val) (p : Pay) : List (String × Val) :=
+  (metaTable.filterMap fun e => (p.md.get e.1).map fun mv => (e.1, mvalVal mv))
+  ++ ((p.memo.filter fun kv => (tableKind kv.1).isNone).map fun kv => (kv.1, w kv.2))
+  ++ (p.raw.filter fun kv => !(AList.keys p.memo).contains kv.1 && (tableKind kv.1).isNone)
+
+def marshalF (fx : Fixed) (p : Pay) : List (String × Val) := marshalW (toWireF fx) p
+
+def forwardF (fx : Fixed) (cfg : Cfg) (p : Pay) : Option (Option Pay) :=
+  if p.md.id.tid = "" then none else some (ingestBatchF fx cfg (marshalF fx p))
+
 end Refinery.Model.Payload
